@@ -53,7 +53,7 @@ def plan(tier):
     if tier == "thorough":
         return {"runs": 60000, "slice": 200, "budget_s": 2400,
                 "slice_timeout_s": 1200}
-    return {"runs": 960, "slice": 20, "budget_s": 150,
+    return {"runs": 640, "slice": 16, "budget_s": 150,
             "slice_timeout_s": 400}
 
 
